@@ -44,10 +44,10 @@ Proof. induction l as [|e l IH]; simpl; intros hist h H; [exact H|]. apply creat
 Lemma retired_app : forall l hist h, retired hist h -> retired (l ++ hist) h.
 Proof. induction l as [|e l IH]; simpl; intros hist h H; [exact H|]. apply retired_cons. now apply IH. Qed.
 
-Lemma in_fresh_hist : forall e l hist, In e (map HFresh l ++ hist) -> (exists h, e = HFresh h /\ In h l) \/ In e hist.
+Lemma in_fresh_hist : forall e l hist, In e (map HFresh (rev l) ++ hist) -> (exists h, e = HFresh h /\ In h l) \/ In e hist.
 Proof.
   intros e l hist H. apply in_app_or in H as [H|H]; [left|now right].
-  apply in_map_iff in H as (h & <- & Hh). eauto.
+  apply in_map_iff in H as (h & <- & Hh). apply in_rev in Hh. eauto.
 Qed.
 
 (* restoreCheckPoint: [n] fresh streams on top of a store in which nothing is live *)
@@ -74,7 +74,7 @@ Proof.
       * right. now apply retired_app.
   - intros p cs H. apply in_fresh_hist in H as [(h' & E & _)|H]; [discriminate|]. now apply Hcp.
   - intros hs h' H. apply in_fresh_hist in H as [(h'' & E & _)|H]; [discriminate|]. now apply Hmg.
-  - intros h Hh. left. apply in_or_app. left. now apply in_map.
+  - intros h Hh. left. apply in_or_app. left. apply in_map. now apply -> in_rev.
 Qed.
 
 Lemma fresh_taken_spec : forall s s', store_ok s -> fresh_taken s = Ok s' ->
@@ -115,29 +115,31 @@ Proof.
 Qed.
 
 (* what the round trip does: the tasks and every status are kept, the stored values are renamed *)
-Lemma suspend_resume_spec : forall I ready st st',
+Lemma suspend_resume_spec : forall I ready rr st st',
   Acc g I st -> Permutation I (map snd ready) ->
-  suspend_resume g ready st = Ok st' ->
+  suspend_resume g ready rr st = Ok st' ->
   (exists s, checkpoint_drain g ready st = Ok s /\ s_open s = []) /\
   same_tasks st st' /\
   (exists f, forall x, rs_chans st' x = map_vals f (rs_chans st x)) /\
   Acc g [] st'.
 Proof.
-  intros I ready st st' [Hok HP] HI H. unfold suspend_resume in H.
-  bind_ok H s Hs. bind_ok H s2 H2. inversion H; subst st'; clear H.
+  intros I ready rr st st' [Hok HP] HI H. unfold suspend_resume in H.
+  bind_ok H s Hs. bind_ok H s0 H0. bind_ok H s2 H2. inversion H; subst st'; clear H.
   assert (Hopen : s_open s = []).
   { unfold checkpoint_drain in Hs. destruct (consume_all_perm _ _ _ Hs) as (HPs & _).
     rewrite HP, HI in HPs. apply Permutation_nil. symmetry.
     apply Permutation_app_inv_l with (l := held g st ++ map snd ready). now rewrite app_nil_r. }
   assert (Hoks : store_ok s) by (unfold checkpoint_drain in Hs; eapply consume_all_ok; eauto).
-  destruct (restore_store_ok s (List.length (held g st)) Hoks Hopen) as (Hok1 & Hopen1).
+  destruct (fresh_taken_n_spec _ _ _ Hoks H0) as (Hok0 & HP0).
+  assert (Hopen0 : s_open s0 = []) by (apply Permutation_nil; symmetry; now rewrite <- Hopen).
+  destruct (restore_store_ok s0 (List.length (held g st)) Hok0 Hopen0) as (Hok1 & Hopen1).
   destruct (fresh_taken_n_spec _ _ _ Hok1 H2) as (Hok2 & HP2).
   split; [exists s; auto|]. split; [now split|].
   split; [eexists; intros x; reflexivity|].
   split; [exact Hok2|]. simpl. rewrite app_nil_r.
   assert (Hnh : NoDup (held g st)).
   { destruct Hok as (Hn & _). eapply Permutation_NoDup in Hn; [|exact HP]. eapply nodup_app_l; exact Hn. }
-  rewrite (held_map (fun h => s_next s + index_of h (held g st)) st); [|intros x; reflexivity].
+  rewrite (held_map (fun h => s_next s0 + index_of h (held g st)) st); [|intros x; reflexivity].
   rewrite (map_index_of _ _ Hnh). rewrite HP2, Hopen1. apply Permutation_refl.
 Qed.
 
@@ -221,15 +223,15 @@ Definition sout_ok (o : sout) : Prop :=
   match o with
   | SRunning st => dag_inv g st
   | SDone out dropped st => done_ok out dropped st
-  | SInt ready st => int_ok ready st
+  | SInt ready rr st => int_ok ready st
   end.
 
-Lemma suspend_resume_dag : forall ready st st',
-  int_ok ready st -> suspend_resume g ready st = Ok st' ->
+Lemma suspend_resume_dag : forall ready rr st st',
+  int_ok ready st -> suspend_resume g ready rr st = Ok st' ->
   dag_inv g st' /\ exists s, checkpoint_drain g ready st = Ok s /\ s_open s = [].
 Proof.
-  intros ready st st' (HI & Hcov & HA) H.
-  destruct (suspend_resume_spec g _ _ _ _ HA (Permutation_refl _) H) as (Hdr & Hts & (f & Hf) & HA').
+  intros ready rr st st' (HI & Hcov & HA) H.
+  destruct (suspend_resume_spec g _ _ _ _ _ HA (Permutation_refl _) H) as (Hdr & Hts & (f & Hf) & HA').
   split; [|exact Hdr]. split; [eapply SInv_map_vals; eauto|]. split; [|exact HA'].
   intros x Hx. destruct (Hcov x Hx) as [Hc|Hs]; [now left|right]. unfold skipped in *. now rewrite Hf.
 Qed.
@@ -242,83 +244,159 @@ Proof.
   exfalso. exact (nlist_get_none _ _ _ He Hy).
 Qed.
 
-Lemma pass_dag : forall cfg first b rest st p,
-  dag_inv g st -> pass g cfg first b rest st = Ok p ->
+(* after calculateNextTasks: END reached, or the ready values are handed to their tasks *)
+Lemma after_calc_dag : forall (ready1 : list (key * handle)) st4,
+  SInv g [] [] st4 -> Cov g st4 -> Acc g (map snd ready1) st4 ->
+  NoDup (map fst ready1) -> incl (map fst ready1) (chan_keys g) ->
+  (forall y, In y (map fst ready1) -> In y (rs_pending st4)) ->
+  (forall out, nlist_get kEND ready1 = Some out -> done_ok out (filter not_end ready1) st4) /\
+  (forall s, consume_all (map snd ready1) (rs_store st4) = Ok s -> dag_inv g (set_store st4 s)).
+Proof.
+  intros ready1 st4 HI4 Hcov4 HA4 Hrn Hri Hf4. split.
+  - intros out Ee. split; [exact HI4|]. split; [eapply Acc_perm; [|exact HA4]; now apply map_snd_filter_end|].
+    split; [apply Hf4; eapply nlist_get_in; exact Ee|].
+    intros y h Hyh. apply filter_In in Hyh as [Hyh Hne]. unfold not_end in Hne. simpl in Hne.
+    assert (Hy : In y (map fst ready1)) by (apply in_map_iff; exists (y, h); auto).
+    split; [now apply Hf4|]. destruct (chan_key_cases g y (Hri y Hy)) as [->|[Hk Hs]]; [|split; assumption].
+    rewrite N.eqb_refl in Hne. discriminate.
+  - intros s Hs. split; [eapply SInv_ext; [exact HI4|reflexivity|now split]|]. split.
+    + eapply Cov_mono; [exact Hcov4|]. intros y Hy. exact Hy.
+    + eapply consume_all_acc; [|exact Hs]. now rewrite app_nil_r.
+Qed.
+
+Lemma first_pass_dag : forall cfg b st p,
+  dag_inv g st -> first_pass g cfg b st = Ok p ->
   match p with
   | PNext st' => dag_inv g st'
   | PEnd (SRunning _) => False
   | PEnd o => sout_ok o
   end.
 Proof.
-  intros cfg first b rest st p Hinv H. unfold pass in H. bind_ok H r H1. destruct r as [ready1 st4].
+  intros cfg b st p Hinv H. unfold first_pass in H. bind_ok H r H1. destruct r as [ready1 st4].
   destruct (calc_next_dag g Hdag Hnd Hend _ _ _ _ Hinv H1) as (HI4 & Hcov4 & HA4 & Hrn & Hri & Hf4).
-  assert (Hnext : forall s, consume_all (map snd ready1) (rs_store st4) = Ok s -> dag_inv g (set_store st4 s)).
-  { intros s Hs. split; [eapply SInv_ext; [exact HI4|reflexivity|now split]|]. split.
-    - eapply Cov_mono; [exact Hcov4|]. intros y Hy. exact Hy.
-    - eapply consume_all_acc; [|exact Hs]. now rewrite app_nil_r. }
+  destruct (after_calc_dag _ _ HI4 Hcov4 HA4 Hrn Hri Hf4) as (Hdone & Hnext).
   destruct (nlist_get kEND ready1) as [out|] eqn:Ee.
-  - destruct rest; [|discriminate]. inversion H; subst p; clear H. simpl.
-    split; [exact HI4|]. split; [eapply Acc_perm; [|exact HA4]; now apply map_snd_filter_end|].
-    split; [apply Hf4; eapply nlist_get_in; exact Ee|].
-    intros y h Hyh. apply filter_In in Hyh as [Hyh Hne]. unfold not_end in Hne. simpl in Hne.
-    assert (Hy : In y (map fst ready1)) by (apply in_map_iff; exists (y, h); auto).
-    split; [now apply Hf4|]. destruct (chan_key_cases g y (Hri y Hy)) as [->|[Hk Hs]]; [|split; assumption].
-    rewrite N.eqb_refl in Hne. discriminate.
-  - destruct first.
-    + destruct (hit_before cfg ready1).
-      * destruct rest; [|discriminate]. inversion H; subst p; clear H. simpl. split; [exact HI4|]. split; assumption.
-      * bind_ok H s Hs. inversion H; subst p; clear H. now apply Hnext.
-    + destruct (hit_before cfg ready1 || hit_after cfg b).
-      2:{ bind_ok H s Hs. inversion H; subst p; clear H. now apply Hnext. }
-      destruct (fits_all (List.concat rest) (remove_keys (map fst ready1) (rs_pending st4))) eqn:Ef; simpl in H; [|discriminate].
-      destruct (fits_all_spec _ _ Ef) as (Hnb2 & Hib2).
-      bind_ok H r2 H2. destruct r2 as [ready2 st5].
-      assert (Hib2' : incl (map fst (List.concat rest)) (rs_pending st4)).
-      { intros y Hy. eapply remove_keys_incl. apply Hib2. exact Hy. }
-      destruct (calc_body_dag g Hdag Hnd Hend _ _ _ _ _ HI4 Hcov4 HA4 Hnb2 Hib2' H2)
-        as (HI5 & Hcov5 & HA5 & Hrn2 & Hri2 & Hf5 & Hkeep).
-      (* the tasks created by the first round are not submitted: they stay pending *)
-      assert (Hp1 : forall y, In y (map fst ready1) -> In y (rs_pending st5)).
-      { intros y Hy. apply Hkeep; [now apply Hf4|]. intros Hin. apply Hib2 in Hin.
-        revert Hin. apply remove_keys_notin; [|exact Hy].
-        eapply nodup_app_l. exact (si_nodup _ _ _ _ HI4). }
-      destruct (nlist_get kEND ready2) as [out|] eqn:Ee2; inversion H; subst p; clear H; simpl.
-      * split; [exact HI5|]. split.
-        { eapply Acc_perm; [|exact HA5]. rewrite map_app.
-          rewrite (map_snd_filter_end _ _ Hrn2 Ee2). simpl.
-          apply perm_trans with (out :: map snd (filter not_end ready2) ++ map snd ready1); [reflexivity|].
-          constructor. apply Permutation_app_comm. }
-        split; [apply Hf5; eapply nlist_get_in; exact Ee2|].
-        intros y h Hyh. apply in_app_or in Hyh as [Hyh|Hyh].
-        -- assert (Hy : In y (map fst ready1)) by (apply in_map_iff; exists (y, h); auto).
-           split; [now apply Hp1|]. now apply (ready_key_node ready1).
-        -- apply filter_In in Hyh as [Hyh Hne]. unfold not_end in Hne. simpl in Hne.
-           assert (Hy : In y (map fst ready2)) by (apply in_map_iff; exists (y, h); auto).
-           split; [now apply Hf5|]. destruct (chan_key_cases g y (Hri2 y Hy)) as [->|[Hk Hs]]; [|split; assumption].
-           rewrite N.eqb_refl in Hne. discriminate.
-      * split; [exact HI5|]. split; [exact Hcov5|]. eapply Acc_perm; [|exact HA5].
-        rewrite map_app. apply Permutation_app_comm.
+  - inversion H; subst p; clear H. simpl. now apply Hdone.
+  - destruct (hit_before cfg ready1).
+    + inversion H; subst p; clear H. simpl. split; [exact HI4|]. split; assumption.
+    + bind_ok H s Hs. inversion H; subst p; clear H. now apply Hnext.
 Qed.
 
-Lemma seg_loop_dag : forall cfg bs first st o,
-  dag_inv g st -> seg_loop g cfg first bs st = Ok o -> sout_ok o.
+Lemma others_keys : forall rr (b : batch),
+  NoDup (map fst b) -> NoDup (map fst (others_of rr b)) /\ incl (map fst (others_of rr b)) (map fst b).
 Proof.
-  intros cfg. induction bs as [|b rest IH]; simpl; intros first st o Hinv H.
+  intros rr b Hn. split; [now apply nodup_map_fst_filter|].
+  intros k Hk. apply in_map_iff in Hk as (ko & <- & Hin). apply filter_In in Hin as [Hin _]. now apply in_map.
+Qed.
+
+Lemma pass_dag : forall cfg rr b rest st p,
+  dag_inv g st -> pass g cfg rr b rest st = Ok p ->
+  match p with
+  | PNext st' => dag_inv g st'
+  | PEnd (SRunning _) => False
+  | PEnd o => sout_ok o
+  end.
+Proof.
+  intros cfg rr b rest st p Hinv H. unfold pass in H.
+  destruct (reruns_of rr b) as [|r0 R1] eqn:ER.
+  2:{ (* a completed task interrupted itself: the others are resolved, nothing is taken from the channels *)
+    destruct Hinv as (HI & Hcov & HA).
+    destruct (batch_fits g b (rs_pending st)) eqn:Eb; simpl in H; [|discriminate].
+    destruct (batch_fits_spec _ _ _ Eb) as (HndB & HinB & _).
+    destruct (fits_all (List.concat rest) (remove_keys (map fst b) (rs_pending st))) eqn:Ef; simpl in H; [|discriminate].
+    destruct (fits_all_spec _ _ Ef) as (Hnb2 & Hib2).
+    bind_ok H st' H'. inversion H; subst p; clear H. simpl.
+    assert (HndP : NoDup (rs_pending st)) by (eapply nodup_app_l; exact (si_nodup _ _ _ _ HI)).
+    assert (HndA : NoDup (map fst (b ++ List.concat rest))).
+    { rewrite map_app. apply NoDup_app_intro; [exact HndB|exact Hnb2|].
+      intros y Hy1 Hy2. apply Hib2 in Hy2. revert Hy2. now apply remove_keys_notin. }
+    assert (HinA : incl (map fst (b ++ List.concat rest)) (rs_pending st)).
+    { rewrite map_app. intros y Hy. apply in_app_or in Hy as [Hy|Hy]; [now apply HinB|].
+      eapply remove_keys_incl. now apply Hib2. }
+    destruct (others_keys rr _ HndA) as (HndO & HinO).
+    destruct (resolve_phases_dag g Hdag Hnd Hend _ _ _ _ HI Hcov HA HndO (fun y Hy => HinA y (HinO y Hy)) H')
+      as (HI' & Hcov' & HA' & _).
+    split; [exact HI'|]. split; assumption. }
+  bind_ok H r H1. destruct r as [ready1 st4].
+  destruct (calc_next_dag g Hdag Hnd Hend _ _ _ _ Hinv H1) as (HI4 & Hcov4 & HA4 & Hrn & Hri & Hf4).
+  destruct (after_calc_dag _ _ HI4 Hcov4 HA4 Hrn Hri Hf4) as (Hdone & Hnext).
+  destruct (nlist_get kEND ready1) as [out|] eqn:Ee.
+  - destruct rest; [|discriminate]. inversion H; subst p; clear H. simpl. now apply Hdone.
+  - destruct (hit_before cfg ready1 || hit_after cfg b).
+    2:{ bind_ok H s Hs. inversion H; subst p; clear H. now apply Hnext. }
+    destruct (fits_all (List.concat rest) (remove_keys (map fst ready1) (rs_pending st4))) eqn:Ef; simpl in H; [|discriminate].
+    destruct (fits_all_spec _ _ Ef) as (Hnb2 & Hib2).
+    assert (Hib2' : incl (map fst (List.concat rest)) (rs_pending st4)).
+    { intros y Hy. eapply remove_keys_incl. apply Hib2. exact Hy. }
+    destruct (reruns_of rr (List.concat rest)) as [|r0 R2] eqn:ER2.
+    2:{ (* a task collected by waitAll interrupted itself *)
+      bind_ok H st5 H5. inversion H; subst p; clear H. simpl.
+      destruct (others_keys rr _ Hnb2) as (HndO & HinO).
+      destruct (resolve_phases_dag g Hdag Hnd Hend _ _ _ _ HI4 Hcov4 HA4 HndO (fun y Hy => Hib2' y (HinO y Hy)) H5)
+        as (HI5 & Hcov5 & HA5 & _).
+      split; [exact HI5|]. split; assumption. }
+    bind_ok H r2 H2. destruct r2 as [ready2 st5].
+    destruct (calc_body_dag g Hdag Hnd Hend _ _ _ _ _ HI4 Hcov4 HA4 Hnb2 Hib2' H2)
+      as (HI5 & Hcov5 & HA5 & Hrn2 & Hri2 & Hf5 & Hkeep).
+    (* the tasks created by the first round are not submitted: they stay pending *)
+    assert (Hp1 : forall y, In y (map fst ready1) -> In y (rs_pending st5)).
+    { intros y Hy. apply Hkeep; [now apply Hf4|]. intros Hin. apply Hib2 in Hin.
+      revert Hin. apply remove_keys_notin; [|exact Hy].
+      eapply nodup_app_l. exact (si_nodup _ _ _ _ HI4). }
+    destruct (nlist_get kEND ready2) as [out|] eqn:Ee2; inversion H; subst p; clear H; simpl.
+    * split; [exact HI5|]. split.
+      { eapply Acc_perm; [|exact HA5]. rewrite map_app.
+        rewrite (map_snd_filter_end _ _ Hrn2 Ee2). simpl.
+        apply perm_trans with (out :: map snd (filter not_end ready2) ++ map snd ready1); [reflexivity|].
+        constructor. apply Permutation_app_comm. }
+      split; [apply Hf5; eapply nlist_get_in; exact Ee2|].
+      intros y h Hyh. apply in_app_or in Hyh as [Hyh|Hyh].
+      -- assert (Hy : In y (map fst ready1)) by (apply in_map_iff; exists (y, h); auto).
+         split; [now apply Hp1|]. now apply (ready_key_node ready1).
+      -- apply filter_In in Hyh as [Hyh Hne]. unfold not_end in Hne. simpl in Hne.
+         assert (Hy : In y (map fst ready2)) by (apply in_map_iff; exists (y, h); auto).
+         split; [now apply Hf5|]. destruct (chan_key_cases g y (Hri2 y Hy)) as [->|[Hk Hs]]; [|split; assumption].
+         rewrite N.eqb_refl in Hne. discriminate.
+    * split; [exact HI5|]. split; [exact Hcov5|]. eapply Acc_perm; [|exact HA5].
+      rewrite map_app. apply Permutation_app_comm.
+Qed.
+
+Lemma seg_loop_dag : forall cfg rr bs st o,
+  dag_inv g st -> seg_loop g cfg rr bs st = Ok o -> sout_ok o.
+Proof.
+  intros cfg rr. induction bs as [|b rest IH]; simpl; intros st o Hinv H.
   - inversion H; subst. exact Hinv.
   - bind_ok H p Hp. pose proof (pass_dag _ _ _ _ _ _ Hinv Hp) as Hpass. destruct p as [st'|o'].
     + eapply IH; eauto.
     + inversion H; subst o'. destruct o; [destruct Hpass|exact Hpass|exact Hpass].
 Qed.
 
-Lemma run_segs_dag : forall cfg segs first st o,
-  dag_inv g st -> run_segs g cfg first segs st = Ok o -> sout_ok o.
+Lemma calls_dag : forall cfg tms n st o n' unused,
+  dag_inv g st -> calls g cfg tms n st = Ok (o, n', unused) -> sout_ok o.
 Proof.
-  intros cfg. induction segs as [|bs more IH]; simpl; intros first st o Hinv H.
+  intros cfg. induction tms as [|tm more IH]; simpl; intros n st o n' unused Hinv H.
   - inversion H; subst. exact Hinv.
-  - bind_ok H o1 H1. pose proof (seg_loop_dag _ _ _ _ _ Hinv H1) as Ho1. destruct more as [|bs2 more].
-    + inversion H; subst. exact Ho1.
-    + destruct o1 as [st1|out1 d1 st1|ready st5]; try discriminate.
-      bind_ok H st6 H6. destruct (suspend_resume_dag _ _ _ Ho1 H6) as (Hinv6 & _). eapply IH; eauto.
+  - bind_ok H o1 H1. pose proof (seg_loop_dag _ _ _ _ _ Hinv H1) as Ho1.
+    destruct o1 as [st1|out1 d1 st1|ready rr st5]; try (inversion H; subst; exact Ho1).
+    destruct more as [|tm2 more]; [inversion H; subst; exact Ho1|].
+    bind_ok H st6 H6. destruct (suspend_resume_dag _ _ _ _ Ho1 H6) as (Hinv6 & _). eapply IH; eauto.
+Qed.
+
+Lemma run_one_dag : forall cfg start tms o n unused,
+  covered g = true -> run_one g cfg start tms = Ok (o, n, unused) -> sout_ok o.
+Proof.
+  intros cfg start tms o n unused Hcov H. unfold run_one in H. bind_ok H st0 H0.
+  pose proof (init_dag g Hdag Hnd Hend _ Hcov H0) as Hinv. bind_ok H p Hp.
+  pose proof (first_pass_dag _ _ _ _ Hinv Hp) as Hp1.
+  destruct p as [st'|o1].
+  - destruct tms as [|tm more]; [inversion H; subst; exact Hp1|].
+    bind_ok H o1 H1. pose proof (seg_loop_dag _ _ _ _ _ Hp1 H1) as Ho1.
+    destruct o1 as [st1|out1 d1 st1|ready rr st5]; try (inversion H; subst; exact Ho1).
+    destruct more as [|tm2 more]; [inversion H; subst; exact Ho1|].
+    bind_ok H st6 H6. destruct (suspend_resume_dag _ _ _ _ Ho1 H6) as (Hinv6 & _). eapply calls_dag; eauto.
+  - destruct o1 as [st1|out1 d1 st1|ready rr st5]; [destruct Hp1|inversion H; subst; exact Hp1|].
+    destruct tms as [|tm more]; [inversion H; subst; exact Hp1|].
+    bind_ok H st6 H6. destruct (suspend_resume_dag _ _ _ _ Hp1 H6) as (Hinv6 & _). eapply calls_dag; eauto.
 Qed.
 
 (* a finished run: every node ran or was skipped => nothing was dropped, only the output is live *)
@@ -369,6 +447,9 @@ Qed.
 End DagInt.
 
 (* ------------------------------------------------------------------ any-predecessor mode *)
+Lemma reruns_of_nil : forall b, reruns_of [] b = [].
+Proof. intros b. unfold reruns_of. induction (map fst b) as [|k l IH]; simpl; [reflexivity|exact IH]. Qed.
+
 Section PregelInt.
 Variable g : graph.
 Hypothesis Hpre : g_dag g = false.
@@ -379,72 +460,118 @@ Definition psout_ok (o : sout) : Prop :=
   match o with
   | SRunning st => pregel_inv g st
   | SDone out dropped st => all_empty g st /\ Acc g (out :: map snd dropped) st
-  | SInt ready st => all_empty g st /\ Acc g (map snd ready) st
+  | SInt ready rr st => all_empty g st /\ Acc g (map snd ready) st
   end.
 
-Lemma suspend_resume_pregel : forall ready st st',
-  all_empty g st -> Acc g (map snd ready) st -> suspend_resume g ready st = Ok st' ->
+Lemma suspend_resume_pregel : forall ready rr st st',
+  all_empty g st -> Acc g (map snd ready) st -> suspend_resume g ready rr st = Ok st' ->
   pregel_inv g st' /\ exists s, checkpoint_drain g ready st = Ok s /\ s_open s = [].
 Proof.
-  intros ready st st' Hemp HA H.
-  destruct (suspend_resume_spec g _ _ _ _ HA (Permutation_refl _) H) as (Hdr & Hts & (f & Hf) & HA').
+  intros ready rr st st' Hemp HA H.
+  destruct (suspend_resume_spec g _ _ _ _ _ HA (Permutation_refl _) H) as (Hdr & Hts & (f & Hf) & HA').
   split; [|exact Hdr]. split; [|exact HA'].
   intros y p Hp. rewrite Hf. simpl. now rewrite (Hemp y p Hp).
 Qed.
 
-Lemma pass_pregel : forall cfg first b rest st p,
-  pregel_inv g st -> pass g cfg first b rest st = Ok p ->
+Lemma first_pass_pregel : forall cfg b st p,
+  pregel_inv g st -> first_pass g cfg b st = Ok p ->
   match p with
   | PNext st' => pregel_inv g st'
   | PEnd (SRunning _) => False
   | PEnd o => psout_ok o
   end.
 Proof.
-  intros cfg first b rest st p Hinv H. unfold pass in H. bind_ok H r H1. destruct r as [ready1 st4].
+  intros cfg b st p Hinv H. unfold first_pass in H. bind_ok H r H1. destruct r as [ready1 st4].
+  destruct (calc_next_pregel g Hpre Hnd Hend _ _ _ _ Hinv H1) as (Hemp4 & HA4 & Hrn).
+  destruct (nlist_get kEND ready1) as [out|] eqn:Ee.
+  - inversion H; subst p; clear H. simpl.
+    split; [exact Hemp4|]. eapply Acc_perm; [|exact HA4]. now apply map_snd_filter_end.
+  - destruct (hit_before cfg ready1).
+    + inversion H; subst p; clear H. simpl. now split.
+    + bind_ok H s Hs. inversion H; subst p; clear H. split; [exact Hemp4|].
+      eapply consume_all_acc; [|exact Hs]. now rewrite app_nil_r.
+Qed.
+
+(* passes in which no task interrupts itself *)
+Lemma pass_pregel : forall cfg b rest st p,
+  pregel_inv g st -> pass g cfg [] b rest st = Ok p ->
+  match p with
+  | PNext st' => pregel_inv g st'
+  | PEnd (SRunning _) => False
+  | PEnd o => psout_ok o
+  end.
+Proof.
+  intros cfg b rest st p Hinv H. unfold pass in H. rewrite reruns_of_nil in H.
+  bind_ok H r H1. destruct r as [ready1 st4].
   destruct (calc_next_pregel g Hpre Hnd Hend _ _ _ _ Hinv H1) as (Hemp4 & HA4 & Hrn).
   assert (Hnext : forall s, consume_all (map snd ready1) (rs_store st4) = Ok s -> pregel_inv g (set_store st4 s)).
   { intros s Hs. split; [exact Hemp4|]. eapply consume_all_acc; [|exact Hs]. now rewrite app_nil_r. }
   destruct (nlist_get kEND ready1) as [out|] eqn:Ee.
   - destruct rest; [|discriminate]. inversion H; subst p; clear H. simpl.
     split; [exact Hemp4|]. eapply Acc_perm; [|exact HA4]. now apply map_snd_filter_end.
-  - destruct first.
-    + destruct (hit_before cfg ready1).
-      * destruct rest; [|discriminate]. inversion H; subst p; clear H. simpl. now split.
-      * bind_ok H s Hs. inversion H; subst p; clear H. now apply Hnext.
-    + destruct (hit_before cfg ready1 || hit_after cfg b).
-      2:{ bind_ok H s Hs. inversion H; subst p; clear H. now apply Hnext. }
-      destruct (fits_all (List.concat rest) (remove_keys (map fst ready1) (rs_pending st4))) eqn:Ef; simpl in H; [|discriminate].
-      destruct (fits_all_spec _ _ Ef) as (Hnb2 & _).
-      bind_ok H r2 H2. destruct r2 as [ready2 st5].
-      destruct (calc_body_pregel g Hpre Hnd Hend _ _ _ _ _ Hemp4 HA4 Hnb2 H2) as (Hemp5 & HA5 & Hrn2).
-      destruct (nlist_get kEND ready2) as [out|] eqn:Ee2; inversion H; subst p; clear H; simpl.
-      * split; [exact Hemp5|]. eapply Acc_perm; [|exact HA5]. rewrite map_app.
-        rewrite (map_snd_filter_end _ _ Hrn2 Ee2). simpl.
-        apply perm_trans with (out :: map snd (filter not_end ready2) ++ map snd ready1); [reflexivity|].
-        constructor. apply Permutation_app_comm.
-      * split; [exact Hemp5|]. eapply Acc_perm; [|exact HA5]. rewrite map_app. apply Permutation_app_comm.
+  - destruct (hit_before cfg ready1 || hit_after cfg b).
+    2:{ bind_ok H s Hs. inversion H; subst p; clear H. now apply Hnext. }
+    destruct (fits_all (List.concat rest) (remove_keys (map fst ready1) (rs_pending st4))) eqn:Ef; simpl in H; [|discriminate].
+    destruct (fits_all_spec _ _ Ef) as (Hnb2 & _). rewrite reruns_of_nil in H.
+    bind_ok H r2 H2. destruct r2 as [ready2 st5].
+    destruct (calc_body_pregel g Hpre Hnd Hend _ _ _ _ _ Hemp4 HA4 Hnb2 H2) as (Hemp5 & HA5 & Hrn2).
+    destruct (nlist_get kEND ready2) as [out|] eqn:Ee2; inversion H; subst p; clear H; simpl.
+    * split; [exact Hemp5|]. eapply Acc_perm; [|exact HA5]. rewrite map_app.
+      rewrite (map_snd_filter_end _ _ Hrn2 Ee2). simpl.
+      apply perm_trans with (out :: map snd (filter not_end ready2) ++ map snd ready1); [reflexivity|].
+      constructor. apply Permutation_app_comm.
+    * split; [exact Hemp5|]. eapply Acc_perm; [|exact HA5]. rewrite map_app. apply Permutation_app_comm.
 Qed.
 
-Lemma seg_loop_pregel : forall cfg bs first st o,
-  pregel_inv g st -> seg_loop g cfg first bs st = Ok o -> psout_ok o.
+Lemma seg_loop_pregel : forall cfg bs st o,
+  pregel_inv g st -> seg_loop g cfg [] bs st = Ok o -> psout_ok o.
 Proof.
-  intros cfg. induction bs as [|b rest IH]; simpl; intros first st o Hinv H.
+  intros cfg. induction bs as [|b rest IH]; simpl; intros st o Hinv H.
   - inversion H; subst. exact Hinv.
-  - bind_ok H p Hp. pose proof (pass_pregel _ _ _ _ _ _ Hinv Hp) as Hpass. destruct p as [st'|o'].
+  - bind_ok H p Hp. pose proof (pass_pregel _ _ _ _ _ Hinv Hp) as Hpass. destruct p as [st'|o'].
     + eapply IH; eauto.
     + inversion H; subst o'. destruct o; [destruct Hpass|exact Hpass|exact Hpass].
 Qed.
 
-Lemma run_segs_pregel : forall cfg segs first st o,
-  pregel_inv g st -> run_segs g cfg first segs st = Ok o -> psout_ok o.
+Definition no_reruns (tms : list seg) : Prop := Forall (fun tm => sg_rr tm = []) tms.
+
+Lemma calls_pregel : forall cfg tms n st o n' unused,
+  no_reruns tms -> pregel_inv g st -> calls g cfg tms n st = Ok (o, n', unused) -> psout_ok o.
 Proof.
-  intros cfg. induction segs as [|bs more IH]; simpl; intros first st o Hinv H.
+  intros cfg. induction tms as [|tm more IH]; simpl; intros n st o n' unused Hnr Hinv H.
   - inversion H; subst. exact Hinv.
-  - bind_ok H o1 H1. pose proof (seg_loop_pregel _ _ _ _ _ Hinv H1) as Ho1. destruct more as [|bs2 more].
-    + inversion H; subst. exact Ho1.
-    + destruct o1 as [st1|out1 d1 st1|ready st5]; try discriminate.
-      bind_ok H st6 H6. destruct Ho1 as (Hemp & HA).
-      destruct (suspend_resume_pregel _ _ _ Hemp HA H6) as (Hinv6 & _). eapply IH; eauto.
+  - inversion Hnr as [|? ? Hr Hnr']; subst. rewrite Hr in H.
+    bind_ok H o1 H1. pose proof (seg_loop_pregel _ _ _ _ Hinv H1) as Ho1.
+    destruct o1 as [st1|out1 d1 st1|ready rr st5]; try (inversion H; subst; exact Ho1).
+    destruct more as [|tm2 more]; [inversion H; subst; exact Ho1|].
+    bind_ok H st6 H6. destruct Ho1 as (Hemp & HA).
+    destruct (suspend_resume_pregel _ _ _ _ Hemp HA H6) as (Hinv6 & _). eapply IH; eauto.
+Qed.
+
+Lemma init_pregel : forall st, init_state g = Ok st -> pregel_inv g st.
+Proof.
+  intros st H. unfold init_state in H. rewrite Hpre in H. inversion H; subst st; clear H.
+  split; [intros y p _; reflexivity|]. apply (state0_inv g).
+Qed.
+
+Lemma run_one_pregel : forall cfg start tms o n unused,
+  no_reruns tms -> run_one g cfg start tms = Ok (o, n, unused) -> psout_ok o.
+Proof.
+  intros cfg start tms o n unused Hnr H. unfold run_one in H. bind_ok H st0 H0.
+  pose proof (init_pregel _ H0) as Hinv. bind_ok H p Hp.
+  pose proof (first_pass_pregel _ _ _ _ Hinv Hp) as Hp1.
+  destruct p as [st'|o1].
+  - destruct tms as [|tm more]; [inversion H; subst; exact Hp1|].
+    inversion Hnr as [|? ? Hr Hnr']; subst. rewrite Hr in H.
+    bind_ok H o1 H1. pose proof (seg_loop_pregel _ _ _ _ Hp1 H1) as Ho1.
+    destruct o1 as [st1|out1 d1 st1|ready rr st5]; try (inversion H; subst; exact Ho1).
+    destruct more as [|tm2 more]; [inversion H; subst; exact Ho1|].
+    bind_ok H st6 H6. destruct Ho1 as (Hemp & HA).
+    destruct (suspend_resume_pregel _ _ _ _ Hemp HA H6) as (Hinv6 & _). eapply calls_pregel; eauto.
+  - destruct o1 as [st1|out1 d1 st1|ready rr st5]; [destruct Hp1|inversion H; subst; exact Hp1|].
+    destruct tms as [|tm more]; [inversion H; subst; exact Hp1|].
+    bind_ok H st6 H6. destruct Hp1 as (Hemp & HA).
+    destruct (suspend_resume_pregel _ _ _ _ Hemp HA H6) as (Hinv6 & _). eapply calls_pregel; eauto.
 Qed.
 
 Lemma pregel_done_open : forall out st,
@@ -459,111 +586,124 @@ Proof.
   rewrite Hheld in HP. simpl in HP. symmetry in HP. apply Permutation_length_1_inv in HP. exact HP.
 Qed.
 
-Lemma init_pregel : forall st, init_state g = Ok st -> pregel_inv g st.
-Proof.
-  intros st H. unfold init_state in H. rewrite Hpre in H. inversion H; subst st; clear H.
-  split; [intros y p _; reflexivity|]. apply (state0_inv g).
-Qed.
-
 End PregelInt.
 
 (* ================================================================== Part 3 *)
 (* the statements of Props/C19.v *)
+Lemma run_int_one : forall g cfg start tms o,
+  run_int g cfg start tms = Ok o -> exists n, run_one g cfg start tms = Ok (o, n, []).
+Proof.
+  intros g cfg start tms o H. unfold run_int in H. bind_ok H r Hr. destruct r as [[o' n] unused].
+  destruct unused; [|discriminate]. inversion H; subst. eauto.
+Qed.
 
-(* every way a run can end, all-predecessor mode: for every interrupt configuration and every number
-   of interrupted calls, if the last call returns the output and every node ran or was skipped, then
-   nothing was dropped and the only live handle is the output *)
-Lemma resumed_open_empty_dag_s : forall g cfg segs out dropped st,
+(* every way a run can end, all-predecessor mode: for every interrupt configuration, every number of
+   interrupted calls and every way they were interrupted, if the last call returns the output and every
+   node ran or was skipped, then nothing was dropped and the only live handle is the output *)
+Lemma resumed_open_empty_dag_s : forall g cfg start tms out dropped st,
   g_dag g = true -> NoDup (all_keys g) -> ~ In kEND (all_keys g) -> covered g = true ->
-  run_int g cfg segs = Ok (SDone out dropped st) ->
+  run_int g cfg start tms = Ok (SDone out dropped st) ->
   all_finished g st = true ->
   s_open (rs_store st) = [out] /\ dropped = [].
 Proof.
-  intros g cfg segs out dropped st Hd Hn He Hcov H Hfin. unfold run_int in H. bind_ok H st0 H0.
-  pose proof (init_dag g Hd Hn He _ Hcov H0) as Hinv.
-  pose proof (run_segs_dag g Hd Hn He _ _ _ _ _ Hinv H) as Hok. simpl in Hok.
+  intros g cfg start tms out dropped st Hd Hn He Hcov H Hfin. destruct (run_int_one _ _ _ _ _ H) as (n & H1).
+  pose proof (run_one_dag g Hd Hn He _ _ _ _ _ _ Hcov H1) as Hok. simpl in Hok.
   eapply done_ok_open; eauto.
 Qed.
 
-Lemma resumed_open_empty_dag_reach_s : forall g cfg segs out dropped st,
+Lemma resumed_open_empty_dag_reach_s : forall g cfg start tms out dropped st,
   g_dag g = true -> NoDup (all_keys g) -> ~ In kEND (all_keys g) -> covered g = true -> all_reach g = true ->
-  run_int g cfg segs = Ok (SDone out dropped st) ->
+  run_int g cfg start tms = Ok (SDone out dropped st) ->
   all_finished g st = true /\ s_open (rs_store st) = [out] /\ dropped = [].
 Proof.
-  intros g cfg segs out dropped st Hd Hn He Hcov Hreach H. pose proof H as H'. unfold run_int in H'. bind_ok H' st0 H0.
-  pose proof (init_dag g Hd Hn He _ Hcov H0) as Hinv.
-  pose proof (run_segs_dag g Hd Hn He _ _ _ _ _ Hinv H') as Hok. simpl in Hok.
+  intros g cfg start tms out dropped st Hd Hn He Hcov Hreach H. destruct (run_int_one _ _ _ _ _ H) as (n & H1).
+  pose proof (run_one_dag g Hd Hn He _ _ _ _ _ _ Hcov H1) as Hok. simpl in Hok.
   assert (Hfin : all_finished g st = true) by (eapply done_ok_reach; eauto).
   split; [exact Hfin|]. eapply done_ok_open; eauto.
 Qed.
 
-Lemma resumed_open_empty_pregel_s : forall g cfg segs out st,
-  g_dag g = false -> NoDup (all_keys g) -> ~ In kEND (all_keys g) ->
-  run_int g cfg segs = Ok (SDone out [] st) ->
+Lemma resumed_open_empty_pregel_s : forall g cfg start tms out st,
+  g_dag g = false -> NoDup (all_keys g) -> ~ In kEND (all_keys g) -> no_reruns tms ->
+  run_int g cfg start tms = Ok (SDone out [] st) ->
   s_open (rs_store st) = [out].
 Proof.
-  intros g cfg segs out st Hp Hn He H. unfold run_int in H. bind_ok H st0 H0.
-  assert (Hinv : pregel_inv g st0) by (eapply init_pregel; eauto).
-  pose proof (run_segs_pregel g Hp Hn He _ _ _ _ _ Hinv H) as (Hemp & HA). simpl in HA.
+  intros g cfg start tms out st Hp Hn He Hnr H. destruct (run_int_one _ _ _ _ _ H) as (n & H1).
+  pose proof (run_one_pregel g Hp Hn He _ _ _ _ _ _ Hnr H1) as (Hemp & HA). simpl in HA.
   eapply pregel_done_open; eauto.
 Qed.
 
-(* a suspended run holds nothing: whenever a call leaves through handleInterrupt — the first call or
-   a resumed one, after one or two rounds of calculateNextTasks — the checkpoint conversion drains every
-   live handle *)
-Lemma suspended_holds_nothing_s : forall g cfg segs ready st,
+Lemma int_acc : forall g cfg start tms ready rr st,
   NoDup (all_keys g) -> ~ In kEND (all_keys g) -> (g_dag g = true -> covered g = true) ->
-  run_int g cfg segs = Ok (SInt ready st) ->
+  (g_dag g = false -> no_reruns tms) ->
+  run_int g cfg start tms = Ok (SInt ready rr st) -> Acc g (map snd ready) st.
+Proof.
+  intros g cfg start tms ready rr st Hn He Hc Hnr H. destruct (run_int_one _ _ _ _ _ H) as (n & H1).
+  destruct (g_dag g) eqn:Hd.
+  - pose proof (run_one_dag g Hd Hn He _ _ _ _ _ _ (Hc eq_refl) H1) as (_ & _ & HA). exact HA.
+  - pose proof (run_one_pregel g Hd Hn He _ _ _ _ _ _ (Hnr eq_refl) H1) as (_ & HA). exact HA.
+Qed.
+
+(* a suspended run holds nothing: whenever a call leaves through an interrupt exit — the first call or
+   a resumed one, after one or two rounds of calculateNextTasks, for an interrupt of the graph or of a
+   task — the checkpoint conversion drains every live handle *)
+Lemma suspended_holds_nothing_s : forall g cfg start tms ready rr st,
+  NoDup (all_keys g) -> ~ In kEND (all_keys g) -> (g_dag g = true -> covered g = true) ->
+  (g_dag g = false -> no_reruns tms) ->
+  run_int g cfg start tms = Ok (SInt ready rr st) ->
   exists s, checkpoint_drain g ready st = Ok s /\ s_open s = [].
 Proof.
-  intros g cfg segs ready st Hn He Hc H. unfold run_int in H. bind_ok H st0 H0.
-  assert (HA : Acc g (map snd ready) st).
-  { destruct (g_dag g) eqn:Hd.
-    - pose proof (init_dag g Hd Hn He _ (Hc eq_refl) H0) as Hinv.
-      pose proof (run_segs_dag g Hd Hn He _ _ _ _ _ Hinv H) as (_ & _ & HA). exact HA.
-    - assert (Hinv : pregel_inv g st0) by (eapply init_pregel; eauto).
-      pose proof (run_segs_pregel g Hd Hn He _ _ _ _ _ Hinv H) as (_ & HA). exact HA. }
-  destruct HA as [_ HP]. unfold checkpoint_drain.
+  intros g cfg start tms ready rr st Hn He Hc Hnr H.
+  destruct (int_acc _ _ _ _ _ _ _ Hn He Hc Hnr H) as [_ HP]. unfold checkpoint_drain.
   destruct (consume_all_succeeds (held g st ++ map snd ready) (rs_store st) []) as (s & Hs & HPs).
   - now rewrite app_nil_r.
   - exists s. split; [exact Hs|]. now apply Permutation_nil.
 Qed.
 
-Lemma resumed_done_store_ok : forall g cfg segs out dropped st,
+Lemma resumed_done_store_ok : forall g cfg start tms out dropped st,
   NoDup (all_keys g) -> ~ In kEND (all_keys g) -> (g_dag g = true -> covered g = true) ->
-  run_int g cfg segs = Ok (SDone out dropped st) -> store_ok (rs_store st).
+  (g_dag g = false -> no_reruns tms) ->
+  run_int g cfg start tms = Ok (SDone out dropped st) -> store_ok (rs_store st).
 Proof.
-  intros g cfg segs out dropped st Hn He Hc H. unfold run_int in H. bind_ok H st0 H0.
+  intros g cfg start tms out dropped st Hn He Hc Hnr H. destruct (run_int_one _ _ _ _ _ H) as (n & H1).
   destruct (g_dag g) eqn:Hd.
-  - pose proof (init_dag g Hd Hn He _ (Hc eq_refl) H0) as Hinv.
-    pose proof (run_segs_dag g Hd Hn He _ _ _ _ _ Hinv H) as (_ & [Hok _] & _). exact Hok.
-  - assert (Hinv : pregel_inv g st0) by (eapply init_pregel; eauto).
-    pose proof (run_segs_pregel g Hd Hn He _ _ _ _ _ Hinv H) as (_ & [Hok _]). exact Hok.
+  - pose proof (run_one_dag g Hd Hn He _ _ _ _ _ _ (Hc eq_refl) H1) as (_ & [Hok _] & _). exact Hok.
+  - pose proof (run_one_pregel g Hd Hn He _ _ _ _ _ _ (Hnr eq_refl) H1) as (_ & [Hok _]). exact Hok.
 Qed.
 
 (* every stream that existed during any call of the run — inputs, node outputs, copies, merged and
    empty streams, the streams restored from the checkpoints, the ignored inputs of the resumed calls —
    is released once the caller has drained or closed the output *)
-Lemma every_stream_released_resumed_s : forall g cfg segs out dropped st s',
+Lemma every_stream_released_resumed_s : forall g cfg start tms out dropped st s',
   NoDup (all_keys g) -> ~ In kEND (all_keys g) ->
   (g_dag g = true -> covered g = true /\ all_finished g st = true) ->
-  (g_dag g = false -> dropped = []) ->
-  run_int g cfg segs = Ok (SDone out dropped st) ->
+  (g_dag g = false -> dropped = [] /\ no_reruns tms) ->
+  run_int g cfg start tms = Ok (SDone out dropped st) ->
   consume out (rs_store st) = Ok s' ->
   s_open s' = [] /\ forall h, created (s_hist s') h -> released (s_hist s') h.
 Proof.
-  intros g cfg segs out dropped st s' Hn He Hdagh Hpre H Hcons.
+  intros g cfg start tms out dropped st s' Hn He Hdagh Hpre H Hcons.
   assert (Hok : store_ok (rs_store st)).
-  { eapply resumed_done_store_ok; eauto. intros Hd. apply (Hdagh Hd). }
+  { eapply resumed_done_store_ok; eauto; [intros Hd; apply (Hdagh Hd)|intros Hd; apply (Hpre Hd)]. }
   assert (Hopen : s_open (rs_store st) = [out]).
   { destruct (g_dag g) eqn:Hd.
-    - destruct (Hdagh eq_refl) as [Hcov Hfin]. apply (resumed_open_empty_dag_s g cfg segs out dropped st Hd Hn He Hcov H Hfin).
-    - rewrite (Hpre eq_refl) in H. apply (resumed_open_empty_pregel_s g cfg segs out st Hd Hn He H). }
+    - destruct (Hdagh eq_refl) as [Hcov Hfin]. apply (resumed_open_empty_dag_s g cfg start tms out dropped st Hd Hn He Hcov H Hfin).
+    - destruct (Hpre eq_refl) as [Hdr Hnr]. rewrite Hdr in H. apply (resumed_open_empty_pregel_s g cfg start tms out st Hd Hn He Hnr H). }
   pose proof (consume_ok _ _ _ Hok Hcons) as Hok'.
   destruct (consume_perm _ _ _ Hcons) as (HP & _). rewrite Hopen in HP.
   assert (Hempty : s_open s' = []).
   { apply Permutation_length in HP. simpl in HP. destruct (s_open s'); [reflexivity|simpl in HP; lia]. }
   split; [exact Hempty|]. now apply all_released.
+Qed.
+
+(* the successive runs of a nested graph: each of them is a run *)
+Lemma run_many_each : forall g cfg starts tms l,
+  run_many g cfg starts tms = Ok l ->
+  Forall (fun on => exists s tms' unused, run_one g cfg s tms' = Ok (fst on, snd on, unused)) l.
+Proof.
+  intros g cfg. induction starts as [|s starts IH]; simpl; intros tms l H.
+  - destruct tms; [|discriminate]. inversion H; subst. constructor.
+  - bind_ok H r Hr. destruct r as [[o n] unused]. bind_ok H l' Hl. inversion H; subst. constructor; [|eapply IH; eauto].
+    simpl. eauto.
 Qed.
 
 (* ---- without an interrupt configuration one call is the run of Model/StreamRun.v *)
@@ -578,36 +718,49 @@ Proof. induction ready as [|a l IH]; simpl; [reflexivity|exact IH]. Qed.
 Lemma hit_after_icfg0 : forall b, hit_after icfg0 b = false.
 Proof. induction b as [|a l IH]; simpl; [reflexivity|exact IH]. Qed.
 
-Lemma seg_loop_icfg0 : forall g bs first st,
-  seg_loop g icfg0 first bs st = res_map to_sout (run_from g bs st).
+Lemma seg_loop_icfg0 : forall g bs st,
+  seg_loop g icfg0 [] bs st = res_map to_sout (run_from g bs st).
 Proof.
-  intros g. induction bs as [|b rest IH]; intros first st; [reflexivity|].
-  cbn [seg_loop run_from]. unfold pass, superstep.
+  intros g. induction bs as [|b rest IH]; intros st; [reflexivity|].
+  cbn [seg_loop run_from]. unfold pass, superstep. rewrite reruns_of_nil.
   destruct (calc_next g b st) as [[ready st4]|e|]; simpl; try reflexivity.
   destruct (nlist_get kEND ready) as [out|] eqn:Ee.
   - destruct rest; reflexivity.
   - rewrite hit_before_icfg0, hit_after_icfg0. simpl.
-    destruct first; (destruct (consume_all (map snd ready) (rs_store st4)) as [s|e|]; simpl; [apply IH|reflexivity|reflexivity]).
+    destruct (consume_all (map snd ready) (rs_store st4)) as [s|e|]; simpl; [apply IH|reflexivity|reflexivity].
 Qed.
 
-Lemma run_int_icfg0_l : forall g sched, run_int g icfg0 [sched] = res_map to_sout (run g sched).
+Definition one_call (rest : list batch) : list seg :=
+  match rest with [] => [] | _ :: _ => [ {| sg_b := rest; sg_rr := [] |} ] end.
+
+Lemma run_int_icfg0_l : forall g b rest, run_int g icfg0 b (one_call rest) = res_map to_sout (run g (b :: rest)).
 Proof.
-  intros g sched. unfold run_int, run. destruct (init_state g) as [st|e|]; simpl; try reflexivity.
-  rewrite seg_loop_icfg0. destruct (run_from g sched st) as [o|e|]; reflexivity.
+  intros g b rest. unfold run_int, run_one, run. destruct (init_state g) as [st|e|]; simpl; try reflexivity.
+  unfold first_pass, superstep.
+  destruct (calc_next g b st) as [[ready st4]|e|]; simpl; try reflexivity.
+  destruct (nlist_get kEND ready) as [out|] eqn:Ee.
+  - destruct rest; reflexivity.
+  - rewrite hit_before_icfg0.
+    destruct (consume_all (map snd ready) (rs_store st4)) as [s|e|]; simpl; try reflexivity.
+    destruct rest as [|b1 rest]; [reflexivity|]. cbn [one_call sg_b sg_rr].
+    rewrite seg_loop_icfg0. destruct (run_from g (b1 :: rest) (set_store st4 s)) as [[st'|out d st']|e|]; reflexivity.
 Qed.
 
 (* ---- examples (non-vacuity of the statements) *)
+Definition mkseg (bs : list batch) (rr : list key) : seg := {| sg_b := bs; sg_rr := rr |}.
 Definition ex_dag_cfg : icfg := {| i_before := [3]; i_after := [] |}.
-Definition ex_dag_segs : list (list batch) := [ [ [(0, [])]; [(2, [[3; 4]])] ]; [ [(4, []); (3, [])] ] ].
+Definition ex_dag_tms : list seg := [ mkseg [ [(2, [[3; 4]])] ] []; mkseg [ [(4, []); (3, [])] ] [] ].
 Definition ex_wf_cfg : icfg := {| i_before := []; i_after := [2] |}.
-Definition ex_wf_segs : list (list batch) := [ [ [(0, [])]; [(2, [])] ]; [ [(3, [[5]])]; [(5, [])] ] ].
+Definition ex_wf_tms : list seg := [ mkseg [ [(2, [])] ] []; mkseg [ [(3, [[5]])]; [(5, [])] ] [] ].
+(* node 3 asks for a rerun when it is first collected (together with node 4) *)
+Definition ex_rr_tms : list seg := [ mkseg [ [(2, [[3; 4]])]; [(4, []); (3, [])] ] [3]; mkseg [ [(3, [])] ] [] ].
 
 Lemma ex_dag_resumed_ok :
-  exists out st, run_int ex_dag ex_dag_cfg ex_dag_segs = Ok (SDone out [] st) /\ all_finished ex_dag st = true /\
+  exists out st, run_int ex_dag ex_dag_cfg [(0, [])] ex_dag_tms = Ok (SDone out [] st) /\ all_finished ex_dag st = true /\
                  s_open (rs_store st) = [out] /\ l_cp_drains (rs_log st) = 3%nat /\ l_input_closes (rs_log st) = 1%nat /\
                  l_merges (rs_log st) = [3%nat].
 Proof.
-  assert (E : exists out st, run_int ex_dag ex_dag_cfg ex_dag_segs = Ok (SDone out [] st) /\
+  assert (E : exists out st, run_int ex_dag ex_dag_cfg [(0, [])] ex_dag_tms = Ok (SDone out [] st) /\
               (all_finished ex_dag st = true /\ s_open (rs_store st) = [out] /\ l_cp_drains (rs_log st) = 3%nat /\
                l_input_closes (rs_log st) = 1%nat /\ l_merges (rs_log st) = [3%nat])).
   { vm_compute. eexists. eexists. split; [reflexivity|]. repeat split. }
@@ -615,21 +768,32 @@ Proof.
 Qed.
 
 Lemma ex_wf_resumed_ok :
-  exists out st, run_int ex_wf ex_wf_cfg ex_wf_segs = Ok (SDone out [] st) /\ all_finished ex_wf st = true /\
+  exists out st, run_int ex_wf ex_wf_cfg [(0, [])] ex_wf_tms = Ok (SDone out [] st) /\ all_finished ex_wf st = true /\
                  s_open (rs_store st) = [out] /\ l_cp_drains (rs_log st) = 3%nat /\ l_input_closes (rs_log st) = 1%nat.
 Proof.
-  assert (E : exists out st, run_int ex_wf ex_wf_cfg ex_wf_segs = Ok (SDone out [] st) /\
+  assert (E : exists out st, run_int ex_wf ex_wf_cfg [(0, [])] ex_wf_tms = Ok (SDone out [] st) /\
               (all_finished ex_wf st = true /\ s_open (rs_store st) = [out] /\ l_cp_drains (rs_log st) = 3%nat /\
                l_input_closes (rs_log st) = 1%nat)).
   { vm_compute. eexists. eexists. split; [reflexivity|]. repeat split. }
   exact E.
 Qed.
 
+Lemma ex_rerun_ok :
+  exists out st, run_int ex_dag icfg0 [(0, [])] ex_rr_tms = Ok (SDone out [] st) /\ all_finished ex_dag st = true /\
+                 s_open (rs_store st) = [out] /\ l_cp_drains (rs_log st) = 3%nat /\ l_input_closes (rs_log st) = 1%nat.
+Proof.
+  assert (E : exists out st, run_int ex_dag icfg0 [(0, [])] ex_rr_tms = Ok (SDone out [] st) /\
+              (all_finished ex_dag st = true /\ s_open (rs_store st) = [out] /\ l_cp_drains (rs_log st) = 3%nat /\
+               l_input_closes (rs_log st) = 1%nat)).
+  { vm_compute. eexists. eexists. split; [reflexivity|]. repeat split. }
+  exact E.
+Qed.
+
 Lemma ex_dag_suspended_ok :
-  exists ready st, run_int ex_dag ex_dag_cfg [ [ [(0, [])]; [(2, [[3; 4]])] ] ] = Ok (SInt ready st) /\
+  exists ready st, run_int ex_dag ex_dag_cfg [(0, [])] [ mkseg [ [(2, [[3; 4]])] ] [] ] = Ok (SInt ready [] st) /\
                    List.length ready = 2%nat /\ List.length (held ex_dag st) = 1%nat.
 Proof.
-  assert (E : exists ready st, run_int ex_dag ex_dag_cfg [ [ [(0, [])]; [(2, [[3; 4]])] ] ] = Ok (SInt ready st) /\
+  assert (E : exists ready st, run_int ex_dag ex_dag_cfg [(0, [])] [ mkseg [ [(2, [[3; 4]])] ] [] ] = Ok (SInt ready [] st) /\
               (List.length ready = 2%nat /\ List.length (held ex_dag st) = 1%nat)).
   { vm_compute. eexists. eexists. split; [reflexivity|]. split; reflexivity. }
   exact E.
